@@ -315,12 +315,15 @@ def shipped_jobs():
 FRAG_VARS = ['g0', 'g1', 'l0', 'l1', 'p0', 'p1']
 
 
+CONST_CHOICES = [0, 0, 1, 2, 3, 7, 15, 16, 255, 256, 4095, 4096, 65535, 65534, 1000, 65536, 70000]
+
+
 def frag_expr(rng, depth, want='int'):
     """an expression of the proved fragment: literals, globals g0/g1, locals l0/l1, value formals p0/p1, + and -
     nested on both sides, the six relational operators, ~, unary minus, and/or (the real compiler's constant
     propagation and rewrites are applied to the model's input by XConstProp.front)"""
     def const():
-        v = rng.choice([0, 0, 1, 2, 3, 7, 15, 16, 255, 256, 4095, 4096, 65535, 65534, 1000, 65536, 70000])
+        v = rng.choice(CONST_CHOICES)
         return ('num', v) if rng.random() < 0.8 else ('num', (-v) % (1 << 32))
     r = rng.random()
     if want == 'bool':
@@ -531,6 +534,137 @@ def fragment_tie(ck, tools, scr, n):
     shutil.rmtree(d, ignore_errors=True)
 
 
+def aout_words(path):
+    """the image words of a hex binary: header word = number of image words, then the image"""
+    import struct
+    dta = open(path, 'rb').read()
+    n = struct.unpack('<I', dta[:4])[0]
+    return list(struct.unpack('<%dI' % n, dta[4:4 + 4 * n]))
+
+
+def proc_og(body, funcs=('k', 'k0')):
+    """outgoing words a procedure body needs: link [+ result] + actuals of its widest call; 3 for exit, 4 for put"""
+    og = 0
+    def ex(e):
+        nonlocal og
+        if not isinstance(e, tuple):
+            return
+        if e[0] == 'call' and isinstance(e[2], list):
+            og = max(og, len(e[2]) + (2 if e[1] in funcs or e[1] == 'put' else 1))
+        if e[0] == 'sys':
+            og = max(og, 3 if e[1] == 0 else 4)
+        for x in e[1:]:
+            if isinstance(x, tuple):
+                ex(x)
+            elif isinstance(x, list):
+                for y in x:
+                    ex(y)
+    ex(body)
+    return og
+
+
+def program_tie(ck, tools, scr, n):
+    """whole programs of the proved fragment through XCodegenProgram.model_compile (extracted; hvmain xmc) against the
+    real xcmp: opt = 1 (with the peephole pass) must give the words of xcmp's binary; opt = 0 (the validated image of
+    the lowered code, the compile function of C01_program_partial) must succeed, and its image is run on the ISA and
+    must show what XSem says"""
+    import re
+    global CONST_CHOICES
+    rng = ck.rng
+    d = tempfile.mkdtemp(dir=scr)
+    saved, CONST_CHOICES = CONST_CHOICES, [0, 0, 1, 2, 3, 7, 15, 16, 255, 256, 4095, 4096, 65535, 65534, 1000] if rng.random() < 2 else CONST_CHOICES
+    stats = {'programs': 0, 'byte_identical_to_xcmp': 0, 'differing': 0, 'model_none_opt': 0,
+             'validated_image_ok': 0, 'validated_image_none': 0, 'isa_runs_compared': 0, 'lowered_and_optimised_image_show_the_same': 0}
+    reasons = {}
+    for i in range(n):
+        kind = rng.choice(['func', 'proc', 'proc'])
+        body = [frag_stmt(rng, rng.randint(0, 3)) for _ in range(rng.randint(1, 4))]
+        if kind == 'func':
+            body.append(('return', frag_expr(rng, rng.randint(0, 3), rng.choice(['int', 'int', 'bool']))))
+        nloc = rng.choice([0, 1, 2, 2, 3])
+        locs = [('var', 'l0'), ('var', 'l1'), ('var', 'l2')][:nloc]
+        glob = [('val', 'put', ('num', 1)), ('var', 'g0'), ('var', 'g1')] + [('var', 'l%d' % k) for k in range(nloc, 2)]
+        nform = rng.choice([0, 1, 2, 2, 4])
+        forms = [('val', 'p%d' % k) for k in range(nform)]
+        glob += [('var', 'p%d' % k) for k in range(nform, 2)]
+        call = ('call', 'f', [('num', 5 + k) for k in range(nform)])
+        procs = [{'kind': kind, 'name': 'f', 'formals': forms, 'locals': locs, 'body': ('seq', body)},
+                 {'kind': 'proc', 'name': 'h', 'formals': [('val', 'a'), ('val', 'b')], 'locals': [], 'body': ('assign', 'g0', ('bin', '+', ('var', 'a'), ('var', 'b')))},
+                 {'kind': 'proc', 'name': 'h0', 'formals': [], 'locals': [], 'body': ('skip',)},
+                 {'kind': 'func', 'name': 'k', 'formals': [('val', 'a'), ('val', 'b')], 'locals': [], 'body': ('return', ('bin', '-', ('var', 'a'), ('var', 'b')))},
+                 {'kind': 'func', 'name': 'k0', 'formals': [], 'locals': [], 'body': ('return', ('num', 3))},
+                 {'kind': 'proc', 'name': 'main', 'formals': [], 'locals': [],
+                  'body': ('seq', [('assign', 'g0', ('num', 1)), ('assign', 'g1', ('num', 2)),
+                                   ('assign', 'g1', call) if kind == 'func' else call,
+                                   ('sys', 1, [('bin', '+', ('var', 'g0'), ('num', 48)), ('num', 0)])])}]
+        prog = {'globals': glob, 'procs': procs}
+        src = xcommon.to_x(prog)
+        open(os.path.join(d, 'p.x'), 'wb').write(src)
+        open(os.path.join(d, 'p.sx'), 'w').write(xcommon.to_sx(prog))
+        st, detail = xcommon.compile_x(tools.xcmp, d, 'p.x')
+        rc, out, err = xcommon._run([tools.xcmp, 'p.x', '-S'], d, timeout=60)
+        if st != 'ok' or rc != 0:
+            ck.broken.append('program tie: xcmp failed on %r: %s' % (src.decode('latin-1'), detail))
+            break
+        stats['programs'] += 1
+        real = aout_words(os.path.join(d, 'a.out'))
+        ins = listing_instrs(out.decode('latin-1'))
+        frames = []
+        for pr in procs:
+            k = ins.index(('FUNC' if pr['kind'] == 'func' else 'PROC', pr['name']))
+            size = -ins[k + 3][1] if ins[k + 1:k + 3] == [('LDBM', 1), ('STAI', 0)] and ins[k + 3][0] == 'LDAC' and ins[k + 4] == ('ADD', None) and ins[k + 5] == ('STAM', 1) and ins[k + 3][1] < 0 else 0
+            og = proc_og(pr['body'], [q['name'] for q in procs if q['kind'] == 'func'])
+            frames.append('%s %d %d %d' % (pr['name'], size, size - og, og))
+        fr = ('\n'.join(frames) + '\n').encode()
+        rc, out1, err = xcommon._run([tools.hv, 'xmc', 'p.sx', '1'], d, fr, 60)
+        mo = out1.decode().strip()
+        if rc != 0 or not mo or mo == 'front-error':
+            ck.broken.append('program tie: extracted model_compile failed rc=%d %s %s on %r' % (rc, mo, err[-200:], src.decode('latin-1')))
+            break
+        if mo == 'none':
+            stats['model_none_opt'] += 1
+            why = 'outside the model: a constant that needs the constant pool (folded constants included)'
+            reasons[why] = reasons.get(why, 0) + 1
+            continue
+        model = [int(x) for x in mo.split()]
+        if model == real:
+            stats['byte_identical_to_xcmp'] += 1
+        else:
+            stats['differing'] += 1
+            why = 'length %d vs %d' % (len(model), len(real)) if len(model) != len(real) else 'same length, words differ'
+            reasons[why] = reasons.get(why, 0) + 1
+            ck.broken.append('XCodegenProgram.model_compile (opt) differs from the binary of the real xcmp on %r: %s' % (src.decode('latin-1'), why))
+            if len(ck.broken) > 3:
+                break
+        rc, out0, err = xcommon._run([tools.hv, 'xmc', 'p.sx', '0'], d, fr, 60)
+        m0 = out0.decode().strip()
+        if rc != 0 or not m0:
+            ck.broken.append('program tie: model_compile (validated) crashed on %r' % src.decode('latin-1'))
+            break
+        if m0 == 'none':
+            stats['validated_image_none'] += 1
+        else:
+            stats['validated_image_ok'] += 1
+            # the proved image (lowered code) and xcmp's binary (peepholes applied), both run on the extracted ISA
+            import struct
+            low = [int(x) for x in m0.split()]
+            open(os.path.join(d, 'low.out'), 'wb').write(struct.pack('<I', len(low)) + b''.join(struct.pack('<I', w) for w in low))
+            ra, ea = xcommon.run_isa(tools.hv, os.path.join(d, 'a.out'), [[]], 200000)
+            rl, el = xcommon.run_isa(tools.hv, os.path.join(d, 'low.out'), [[]], 200000)
+            if ra is None or rl is None:
+                ck.broken.append('program tie: the ISA runner failed: %s %s' % (ea, el))
+                break
+            same = all(ra[0][k] == rl[0][k] for k in ('end', 'code', 'out', 'consumed'))
+            stats['isa_runs_compared'] += 1
+            if same:
+                stats['lowered_and_optimised_image_show_the_same'] += 1
+            else:
+                ck.broken.append('the lowered image of model_compile and the binary of xcmp show different behaviour on %r: %r vs %r' % (src.decode('latin-1'), rl[0], ra[0]))
+    CONST_CHOICES = saved
+    ck.cov['program_model_tie'] = dict(stats, reasons_not_identical=reasons)
+    shutil.rmtree(d, ignore_errors=True)
+
+
 def coq_listing(text):
     """the instruction list of a Coq term  [LDBM 1; STAI 0; LDAC (-5); ADD; ..; LABEL 3; ..]  as listing_instrs gives it"""
     import re
@@ -584,6 +718,17 @@ def demo_tie(ck, tools, scr):
         else:
             same += 1
     ck.cov['coq_demo_listing_tie'] = {'procedures_stated': len(lists), 'identical_to_xcmp_S': same}
+    # the image stated in Example demo_model_image_opt against the words of the binary the real xcmp writes
+    mi = re.search(r'\(\* XCMP-IMAGE \*\)\s*\[(.*?)\]\.', text, re.S)
+    if not mi:
+        ck.broken.append('demo tie: cannot find the XCMP-IMAGE list in coq/XCodegenDemo.v')
+    else:
+        stated = [int(x) for x in mi.group(1).replace('\n', ' ').split(';')]
+        st, detail = xcommon.compile_x(tools.xcmp, d, 'demo.x')
+        real = aout_words(os.path.join(d, 'a.out')) if st == 'ok' else None
+        if real != stated:
+            ck.broken.append('coq/XCodegenDemo.v: the image stated for the demo differs from the binary of the real xcmp: stated %r, xcmp %r (%s)' % (stated, real, detail))
+        ck.cov['coq_demo_image_tie'] = {'words_stated': len(stated), 'identical_to_xcmp_binary': real == stated}
     shutil.rmtree(d, ignore_errors=True)
 
 
@@ -637,9 +782,16 @@ def main():
                       '(prologue, body, epilogue before the peepholes; recursion included; stack budget from XSem\'s depth bound) the same holds by a '
                       'program-level induction (C01_calls_partial, C01_call_ok_partial), shown non-vacuous on a recursive demo program whose every hypothesis '
                       'is discharged and whose stated code is re-checked here against xcmp -S (C01_calls_nonvacuous_hyps/_run, coq_demo_listing_tie); '
-                      'the model is tied to the real xcmp on generated procedures (fragment_model_tie: identical code up to label names, incl. prologue, epilogue and peepholes); '
+                      'and END TO END for whole programs of the fragment: XSem.run p inp = Behaviour b and model_compile frames false p = Some img imply that the ISA booted on img '
+                      'shows b (C01_program_partial = C01_full for the model compile function; model_compile = the model code generator + the assembler model + a built-in computable '
+                      'validation of the image; its input is the output of XConstProp.front; frame numbers are a parameter read off xcmp\'s listing); '
+                      'the model is tied to the real xcmp on generated procedures (fragment_model_tie: identical code up to label names, incl. prologue, epilogue and peepholes) '
+                      'and on generated whole programs (program_model_tie: the image words of model_compile with the peephole pass are compared with the real binary; the validated '
+                      'lowered image of the same program must exist, and both images are run on the extracted ISA and must show the same); '
+                      'the three peephole rules are proved to preserve the effect of the block they rewrite (C01_peephole_rule1/2/3_partial) and to be all the pass applies (C01_peephole_rewrites); '
                       'NOT proved: calls inside operands and actuals, array/proc formals, shadowing of globals, get, arrays, strings, the peephole pass, '
-                      'the entry stub and whole-program layout -- decided per program by this check']
+                      'the constant pool, that XConstProp.front preserves behaviour for whole programs, and that the peephole pass does (the proved image is the lowered one) '
+                      '-- decided per program by this check']
     if os.path.exists(os.path.join(vlib.COQ, 'Properties_%s.v' % PID)):
         ok = ck.proofs()
         ck.log('proofs', 'ok' if ok else 'BROKEN')
@@ -661,6 +813,7 @@ def main():
         base = ck.rng.randrange(1 << 30)
         fragment_tie(ck, tools, scr, 150 if not ck.thorough() else 1500)
         demo_tie(ck, tools, scr)
+        program_tie(ck, tools, scr, 40 if not ck.thorough() else 1200)
         jobs = corpus_jobs(PID) + directed_jobs() + shipped_jobs() + [('gen', base + i) for i in range(n)]
         results = pool.map(job, jobs, chunksize=8)
     summarise(ck, results, pool)
